@@ -556,6 +556,15 @@ func (f *frame) execInstr(ins ssa.Instruction) {
 	case *ssa.MakeMap:
 		r := u.alloc(f.cur, types.NewPointer(types.NewArray(types.Typ[types.Int], 0)))
 		f.vals[ins] = Term{r.S, u.tc.sortOf(ins.Type())}
+	case *ssa.MakeChan:
+		// a channel is an opaque fresh object (nothing is sent or received in the modelled subset)
+		r := u.alloc(f.cur, types.NewPointer(types.NewArray(types.Typ[types.Int], 0)))
+		f.vals[ins] = Term{r.S, u.tc.sortOf(ins.Type())}
+	case *ssa.Go:
+		// the spawned goroutine runs concurrently with the rest of this function; its body is not part of
+		// this function's verification (M3: what is proved is the behaviour of the calling goroutine, e.g.
+		// its own lock discipline; interference by the spawned goroutine is not modelled)
+		u.note("go statement in %s: the spawned goroutine is not modelled (single-goroutine semantics, M3)", f.key)
 	case *ssa.MapUpdate:
 		f.mapUpdate(ins)
 	case *ssa.Range:
